@@ -126,10 +126,15 @@ func (tw *tokenWorld) exchange(ch *kernel.Chooser) string {
 	if actor != nil {
 		ak = actor.kind
 	}
-	desc := fmt.Sprintf("exchange subject=%s(live=%v) actor=%s requested=%q by %s (%s) policy{default=%s veto=%v imp=%q} -> %d", subj.kind, subj.live, ak, requested, caller, p.label,
-		w.Store.Policy.DefaultType, w.Store.Policy.Veto, w.Store.Policy.ImpersonateAs, statusOf(r))
+	desc := fmt.Sprintf("exchange subject=%s(live=%v) actor=%s requested=%q by %s (%s) policy{default=%s veto=%v@%q imp=%q} -> %d", subj.kind, subj.live, ak, requested, caller, p.label,
+		w.Store.Policy.DefaultType, w.Store.Policy.Veto, w.Store.Policy.VetoAt, w.Store.Policy.ImpersonateAs, statusOf(r))
 	if panicProbe(tw.o, r) || r.Err != nil {
 		return desc + " (no response)"
+	}
+	for _, j := range w.Store.JournalFor(r.Ex.ID) {
+		if j.Err == "policy-veto" {
+			tw.o.Probe("veto-at-" + j.Method)
+		}
 	}
 	if r.Status < 200 || r.Status > 299 {
 		tw.checkRefusal(r, desc)
@@ -160,8 +165,14 @@ func (tw *tokenWorld) exchange(ch *kernel.Chooser) string {
 	if actor != nil && !actor.live {
 		tw.viol("C15", "dead-actor", "token-exchange/"+actor.kind, "%s: actor token is not a live token of the declared type", desc)
 	}
-	if w.Store.Policy.Veto {
-		tw.viol("C15", "veto-ignored", "token-exchange", "%s: the storage vetoed the exchange", desc)
+	vetoedAt := ""
+	for _, j := range w.Store.JournalFor(r.Ex.ID) {
+		if j.Err == "policy-veto" {
+			vetoedAt = j.Method
+		}
+	}
+	if vetoedAt != "" {
+		tw.viol("C15", "veto-ignored", "token-exchange/"+vetoedAt, "%s: the storage vetoed the exchange (at %s)", desc, vetoedAt)
 	}
 	// what the policy decided is in the journal
 	var decided []string
@@ -242,6 +253,9 @@ func (tw *tokenWorld) policy(ch *kernel.Chooser) string {
 	switch ch.Int(6) {
 	case 0:
 		p.Veto = !p.Veto
+		// the policy may say no at any of its callbacks: when the request is validated, when it is created, or when
+		// the claims / user info of the exchanged token are decided
+		p.VetoAt = ch.Pick("", "create", "claims", "claims", "userinfo", "userinfo")
 	case 1:
 		p.DefaultType = []oidc.TokenType{oidc.AccessTokenType, oidc.RefreshTokenType, oidc.IDTokenType}[ch.Int(3)]
 	case 2:
